@@ -486,3 +486,102 @@ func TestC18WorkerStarvation(t *testing.T) {
 			rep.Floor("paths", 3, rep.Nontrivial)
 		})
 }
+
+// TestC18SilentReader: a client that keeps sending valid packets (CONNECT, SUBSCRIBE, PINGREQ within its keep-alive) but
+// never reads what the broker writes to it. Its own connection may suffer; the others must go on being served: a witness
+// publish is acknowledged and delivered, and an unacknowledged QoS 1 delivery to another session goes on being
+// retransmitted, within the time it takes the broker to give up on the stalled connection (twice the sleeper's
+// keep-alive) plus ten seconds.
+func TestC18SilentReader(t *testing.T) {
+	type sp struct {
+		KeepAlive int32 `json:"sleeper_keepalive_s"`
+		Feed      int   `json:"messages_to_the_sleeper"`
+		Pings     bool  `json:"sleeper_keeps_pinging"`
+	}
+	var paths []sp
+	// (keep-alive 0 on the wire means 30 s to this broker: the codec library substitutes its default)
+	for _, k := range []int32{1, 2, 0} {
+		for _, f := range []int{1, 3} {
+			for _, pg := range []bool{true, false} {
+				paths = append(paths, sp{k, f, pg})
+			}
+		}
+	}
+	RunPaths(t, "C18", "C18/silent-reader", "TestC18SilentReader", len(paths), vk.Pick(5*time.Minute, 15*time.Minute),
+		func(t *testing.T, i int, rep *vk.Report) {
+			p := paths[i]
+			RunBubble(t, fmt.Sprintf("p%d", i), func(t *testing.T) {
+				w := NewWorld(t, 1)
+				defer w.Close()
+				viol := func(sig, format string, a ...any) {
+					rep.Violate(vk.Violation{Sig: sig, Msg: fmt.Sprintf("%+v: ", p) + fmt.Sprintf(format, a...), Replay: p})
+				}
+				wsub := w.NewClient("witness-sub", 1, AckAll)
+				wpub := w.NewClient("witness-pub", 1, AckAll)
+				quiet := w.NewClient("unacknowledging-sub", 1, AckNone)
+				if wsub.Connect(ConnectOpts{ClientID: "wsub", KeepAlive: 600}) != 0 || wpub.Connect(ConnectOpts{ClientID: "wpub", KeepAlive: 600}) != 0 || quiet.Connect(ConnectOpts{ClientID: "quiet", KeepAlive: 600}) != 0 {
+					rep.HarnessError("witness connect failed")
+					return
+				}
+				wsub.Subscribe(1, 1, "wit/#")
+				quiet.Subscribe(1, 1, "q/#")
+				sleeper := w.NewClient("sleeper", 1, AckNone)
+				if sleeper.Connect(ConnectOpts{ClientID: "sleeper", KeepAlive: p.KeepAlive}) != 0 {
+					rep.HarnessError("sleeper connect failed")
+					return
+				}
+				sleeper.Subscribe(1, 0, "feed/#")
+				w.Step()
+				wpub.Publish("q/x", "unacknowledged", 1, false, 70)
+				w.Step()
+				sleeper.Pause()        // from now on it reads nothing
+				defer sleeper.Resume() // (only so that the harness's reader goroutine can end with the bubble)
+				for k := 0; k < p.Feed; k++ {
+					wpub.Publish(fmt.Sprintf("feed/%d", k), "for-the-sleeper", 0, false, 0)
+				}
+				horizon := 2*time.Duration(p.KeepAlive)*time.Second + 10*time.Second
+				if p.KeepAlive == 0 {
+					horizon = 70 * time.Second // 2 x the 30 s the codec substitutes, + 10 s
+				}
+				copies0 := len(quiet.Publishes())
+				wpub.Publish("wit/x", "still-alive", 1, false, 77)
+				for spent := time.Duration(0); spent < horizon; spent += 300 * time.Millisecond {
+					if p.Pings {
+						sleeper.Ping()
+					}
+					w.Idle(300 * time.Millisecond)
+				}
+				Observe(w, rep)
+				if wsub.BrokerClosed() || wpub.BrokerClosed() || quiet.BrokerClosed() {
+					viol("c18-bystander-disconnected", "a bystander's connection was closed by the broker")
+					return
+				}
+				if !wpub.Has("PUBACK(77)") {
+					viol("c18-witness-publish-not-acknowledged", "with a subscriber that reads nothing, the witness publisher got no PUBACK within %v", horizon)
+					return
+				}
+				got := false
+				for _, pk := range wsub.Publishes() {
+					if string(pk.Topic) == "wit/x" {
+						got = true
+					}
+				}
+				if !got {
+					viol("c18-witness-not-delivered", "with a subscriber that reads nothing, the witness subscriber did not receive the witness publish within %v", horizon)
+					return
+				}
+				if n := len(quiet.Publishes()) - copies0; n < 2 {
+					viol("c18-retransmission-to-others-stopped", "with a subscriber that reads nothing, the unacknowledged QoS 1 delivery to another session was sent again only %d time(s) within %v (deadline 3 s)", n, horizon)
+					return
+				}
+				MarkNontrivial(fmt.Sprint(p))
+				rep.Nontrivial++
+				rep.Sample(p)
+			})
+		},
+		func(i int) any { return paths[i] },
+		func(rep *vk.Report) {
+			rep.Rule = "a subscriber with keep-alive 1 / 2 / 0 (= 30) s that reads nothing after its SUBSCRIBE (with and without PINGREQs every 300 ms) while 1 or 3 messages are published to it; within 2 x keep-alive + 10 s a witness QoS 1 publish is acknowledged and delivered and an unacknowledged QoS 1 delivery to another session is retransmitted at least twice"
+			rep.Floor("paths", 6, rep.Nontrivial)
+		})
+}
